@@ -311,7 +311,7 @@ func (h *c17H) generate() error {
 	if b >= 1 && b <= 2000 {
 		nLong := c.Pick(1, 3)
 		for li := 0; li < nLong; li++ {
-			n := 2*b + 20 + r.Intn(130)
+			n := 2*b + 5 + r.Intn(40)
 			if c.Thorough() && li == 1 {
 				n = 3*b + r.Intn(b) // up to 4 batches
 			}
@@ -353,6 +353,63 @@ func (h *c17H) generate() error {
 			for _, t := range long {
 				if err := h.run("long:"+strings.Fields(t[0])[0], src, t...); err != nil {
 					return err
+				}
+			}
+			// every kind of malformed row exactly before / at / after each batch boundary and in the last row,
+			// with the newest checkpoint below the bad row (only the reader can refuse) and above it
+			if en > 2*b+1 {
+				hex65 := strings.Repeat("ab", 32) + "0"
+				type kind struct {
+					name string
+					op   func(row int) string
+				}
+				set := func(col int, val string) func(int) string {
+					return func(row int) string { return fmt.Sprintf("kset %d %d %s", row, col, val) }
+				}
+				kinds := []kind{
+					{"version-nonnumeric", set(0, "abc")}, {"version-range", set(0, "2147483648")}, {"version-empty", set(0, "~")},
+					{"merkle-nonhex", set(1, "zz")}, {"merkle-too-long", set(1, hex65)},
+					{"nonce-nonnumeric", set(2, "1x")}, {"nonce-range", set(2, "4294967296")}, {"nonce-empty", set(2, "~")},
+					{"bits-nonnumeric", set(3, "abc")}, {"bits-range", set(3, "-1")}, {"bits-empty", set(3, "~")},
+					{"ts-nonnumeric", set(4, "1e9")}, {"ts-range", set(4, "9223372036854775808")}, {"ts-empty", set(4, "~")},
+					{"column-missing", func(row int) string { return fmt.Sprintf("kdelcol %d %d", row, r.Intn(5)) }},
+					{"column-extra", func(row int) string { return fmt.Sprintf("kaddcol %d 0", row) }},
+				}
+				rows := []int{b - 1, b, b + 1, 2*b - 1, 2 * b, 2*b + 1, en - 1}
+				for _, row := range rows {
+					atBoundary := row%b == 0
+					for _, below := range []bool{true, false} {
+						ks := kinds
+						if !c.Thorough() && !atBoundary {
+							ks = nil
+							for _, i := range r.Perm(len(kinds))[:3] {
+								ks = append(ks, kinds[i])
+							}
+						}
+						for _, k := range ks {
+							var t []string
+							where := "above"
+							if below {
+								ck := row - 1
+								if r.Intn(2) == 0 {
+									ck = r.Intn(row)
+								}
+								t = append(t, fmt.Sprintf("p %d g", ck))
+								where = "below"
+							}
+							t = append(t, k.op(row), "i", "i")
+							pos := "inside-batch"
+							if atBoundary {
+								pos = "first-row-of-batch"
+							} else if (row+1)%b == 0 {
+								pos = "last-row-of-batch"
+							}
+							if err := h.run("boundary:"+pos+":checkpoint-"+where, src, t...); err != nil {
+								return err
+							}
+							c.Count("boundary-kind:" + k.name)
+						}
+					}
 				}
 			}
 		}
